@@ -203,11 +203,11 @@ Proof. exact unfitted_biv_to_dict_refuted. Qed.
 Theorem C14_unfitted_biv_roundtrip : forall w t rs i j,
   t <> Independence -> to_dict_biv (mkB (Some t) JNone JNone rs i) = Ok j ->
   exists w' b', from_dict_biv w None j = (w', Ok b') /\ theta_unset b' = true /\
-                forall k n g, k <> BSample -> query_biv b' k n g = (b', g, ObsErr NotFitted).
+                forall k n g, query_biv b' k n g = (b', g, ObsErr NotFitted).
 Proof.
   intros w t rs i j Ht Hd. rewrite unfitted_biv_to_dict_refuted in Hd. inversion Hd; subst j.
   eexists; eexists. split; [apply (roundtrip_biv w t JNone JNone Ht)|]. split; [reflexivity|].
-  intros k n g Hk. apply (unfitted_raises_biv _ t); auto.
+  intros k n g. apply (unfitted_raises_biv _ t); auto.
 Qed.
 (* vine / tree: an unfitted object serialises to the three header keys and round-trips to unfitted *)
 Theorem C14_unfitted_tree : forall ty prev,
